@@ -87,6 +87,30 @@ def biased_programs(rnd, n):
             # type filter by a union of structs (formats the type into source text and re-parses it)
             vals = [("struct", [("a", I(1)), ("b", ("s", "x"))]), I(2), ("s", "z"), ("struct", [("a", I(3))])]
             out.append([("post", "collect", ("tfilter", ("post", "iter", ("array", vals)), rnd.choice([U, S1, multi(S1, STR)])))])
+    # exhausted iterators whose element type is a union of COMPOSITE members that themselves contain unions (tuples, structs,
+    # arrays of unions): the placeholder is chosen among the members by an order that must not depend on how the nested
+    # unions happen to be laid out in memory (always included, not sampled)
+    mix = ("array", [I(1), ("s", "a")])
+    mix3 = ("array", [("true",), ("s", "a"), I(1)])
+    nested = [
+        [("tuple", [mix, I(1)]), ("tuple", [mix, ("f", 2.5)])],
+        [("tuple", [mix, I(1)]), ("tuple", [mix, ("s", "z")]), ("tuple", [mix, ("true",)])],
+        [("tuple", [mix3, I(1)]), ("f", 2.5), ("tuple", [mix3, ("s", "z")])],
+        [("struct", [("a", mix), ("b", I(1))]), ("struct", [("a", mix), ("b", ("f", 2.5))])],
+        [("array", [("tuple", [mix, I(1)])]), ("array", [("tuple", [mix, ("f", 2.5)])])],
+        [("tuple", [("tuple", [mix, I(1)]), I(1)]), ("tuple", [("tuple", [mix, I(1)]), ("s", "q")])],
+        [("tuple", [mix, mix3, I(1)]), ("tuple", [mix, mix3, ("f", 0.5)]), ("tuple", [mix3, mix, I(1)])],
+    ]
+    for els in nested:
+        pulls = len(els) + 2
+        src_it = ("post", "iter", ("array", els))
+        last2 = [("tuple", [V("r%d" % j) for j in range(pulls - 2, pulls)])]
+        out.append([("set", "it", src_it)] + [("set", "r%d" % j, ("call", V("it"), [])) for j in range(pulls)] + last2)
+        # the same placeholder observed inside the language and through `@` / `?`
+        out.append([("set", "it", ("bin", "map", src_it, ("fn", [("x", ANY)], ANY, [("return", V("x"))])))] +
+                   [("set", "r%d" % j, ("call", V("it"), [])) for j in range(pulls)] + last2)
+        out.append([("fndecl", "keep", [("x", ANY)], BOOL, [("return", ("true",))]), ("set", "it", ("bin", "filter", src_it, V("keep")))] +
+                   [("set", "r%d" % j, ("call", V("it"), [])) for j in range(pulls)] + last2)
     return out
 
 
